@@ -88,7 +88,7 @@ def run(ck, fx, cg, tier):
     for fn, where, ok, why in sites:
         ck.ob("R4.source", "%s|input reader" % fn, ok, where,
               "the input reader is %s" % why if ok else "the bytes of a file can be altered before the loader sees them: the input reader is %s" % why)
-    ck.floor("R4.source", "places that build the CLI's input reader", len(sites), 2)
+    ck.floor("R4.source", "places that build the CLI's input reader", len(sites), 1)
 
 
 def _frame(ck, fx):
